@@ -258,6 +258,19 @@ type job struct {
 
 func dischargeAll(jobs []job, workDir string, tsec int, allAgree bool, workers int) []*Verdict {
 	out := make([]*Verdict, len(jobs))
+	// Term.String caches its text: render every term once, single-threaded, before the workers share them
+	for _, j := range jobs {
+		for _, h := range j.o.Hyps {
+			_ = h.String()
+		}
+		for _, h := range j.o.Axioms {
+			_ = h.String()
+		}
+		for _, h := range j.lits {
+			_ = h.String()
+		}
+		_ = j.o.Goal.String()
+	}
 	ch := make(chan int)
 	var wg sync.WaitGroup
 	for w := 0; w < workers; w++ {
